@@ -140,6 +140,7 @@ impl Scenario for BigramScenario {
             max_templates: 20,
             max_lex: 12,
             max_dim: 7,
+            big_dim_one_in: 40,
         };
         // template counts around the SIMD width get extra weight
         let mut cfg = cfg;
